@@ -133,6 +133,9 @@ Scenario gen_c17(uint64_t seed) {
 	}
 	sc.readlink_fail = r.coin(1, 6);
 	sc.sigchld_ignored = r.coin(1, 16);
+	sc.stdin_closed = r.coin(1, 12);
+	sc.output_symlink = r.coin(1, 10);
+	if (r.coin(1, 8)) { int n = 1 + (int)r.below(2); for (int i = 0; i < n; i++) sc.path_decoys.push_back(tool_name((int[]){PREPROCESS, CODEGEN, ASSEMBLE, LINK}[r.below(4)])); }
 	sc.pipe_cap = 1 + r.below(4);
 	sc.pid_base = 50 + r.below(5000);
 	sc.stdin_units = r.below(5);
@@ -318,6 +321,8 @@ Scenario gen_c18(uint64_t seed, uint64_t index, bool relaxed) {
 	if (dash >= 0) sc.stdin_stays_open = !sc.stdin_closed && r.coin(1, 2);
 	// the caller may have SIGTERM ignored or blocked; children inherit both through posix_spawn
 	if (r.coin(1, 8)) sc.sigterm_inherited = 1 + (int)r.below(2);
+	sc.output_symlink = r.coin(1, 10);
+	if (r.coin(1, 12)) sc.path_decoys.push_back(tool_name((int[]){PREPROCESS, CODEGEN, ASSEMBLE, LINK}[r.below(4)]));
 	for (int i = 0; i < c.ninputs; i++) {
 		if (i == dash) { items.push_back({"-x", TYPES[types[i]].xlang, "-", "-x", "none"}); continue; }
 		std::string nm = "in" + std::to_string(i) + TYPES[types[i]].suffix;
@@ -396,7 +401,7 @@ Scenario gen_c18(uint64_t seed, uint64_t index, bool relaxed) {
 				return -1;
 			};
 			switch (v) {
-			case 0: sc.faults.push_back({"spawn", sidx, errs[r.below(4)]}); break;
+			case 0: sc.faults.push_back({"spawn", sidx, errs[r.below(4)]}); if (sc.faults.back().err == EAGAIN || sc.faults.back().err == ENOMEM) sc.faults.back().persistent = r.coin(1, 2); break;
 			case 1:
 				if (occ == 0) { sc.missing_tools.push_back(tool_name(stage)); if (sc.readlink_fail && stage == COMPILE) sc.missing_tools.back() = sc.argv[0] + "-qbe"; }
 				else sc.faults.push_back({"spawn", sidx, ENOENT});
